@@ -168,6 +168,37 @@ def check_patch(o):
                             break
                     if not np.all(blank.pixels == 252):
                         bad.append((tag + ": set_patches modified the receiver", {}, None))
+            # write-back offset by offset with the SAME centres object (and through the image's own landmark group): every
+            # interior patch lands where the layout rule says, the caller's centres and the landmark group stay where they were
+            allin = [i for i in range(len(cen)) if all(x >= 0 for j in range(len(offs)) for k in (0, 1) for x in o["slice"][i][j][k])]
+            if allin and dt != "uint8":
+                sub = PointCloud(cen[allin].copy())
+                pk = sub.points.copy()
+                cur = make_image(cls, sh, C, dt, "full", lms=False)
+                cur.pixels[...] = 252
+                via_lm = cur.copy()
+                via_lm.landmarks["pc"] = PointCloud(cen[allin].copy())
+                for j in range(len(offs)):
+                    oj = tuple(int(x) for x in offs[j])
+                    cur = cur.set_patches(got[allin], sub, offset=oj, offset_index=j)
+                    via_lm = via_lm.set_patches_around_landmarks(got[allin], group="pc", offset=oj, offset_index=j)
+                    if not np.array_equal(sub.points, pk) or not np.array_equal(via_lm.landmarks["pc"].points, pk):
+                        bad.append((tag + ": set_patches moved the patch centres it was given (offset %r)" % offs[j].tolist(), {}, None))
+                        break
+                    stop = False
+                    for n_, i in enumerate(allin):
+                        rows, cols = o["slice"][i][j]
+                        blk = (slice(None), slice(rows[0], rows[-1] + 1), slice(cols[0], cols[-1] + 1))
+                        for which, im in (("set_patches", cur), ("set_patches_around_landmarks", via_lm)):
+                            if not np.array_equal(im.pixels[blk], img.pixels[blk]):
+                                bad.append((tag + ": %s with offset %r does not write the extracted patch back where it came from" % (which, offs[j].tolist()),
+                                            {"centre": cen[i]}, None))
+                                stop = True
+                                break
+                        if stop:
+                            break
+                    if stop:
+                        break
         if not np.array_equal(img.pixels, keep):
             bad.append((tag + ": patch extraction modified the image", {}, None))
     return bad
